@@ -179,7 +179,9 @@ def gen_D(rng):
 LEAVES = ["```\nfirst\n\nsecond\n```\n", "<pre>\nfirst\n\nsecond\n</pre>\n", "<div>\nfoo\n\nbar\n", "<div>\n\n*emphasis*\n\n</div>\n",
           "    code\n\n    more\n", "para\nlazy\n", "# h\n", "title\n===\n", "[r]: /u\n 'multi\n line'\n\n[r]\n", "- a\n\n  b\n- c\n",
           "1. x\n   - y\n", "> q\nlazy\n", "~~~ info\n  indented\n~~~\n", "***\n", "<!-- c\n\nd -->\n", "a  \nb\\\nc\n", "<a href=\"x\">\n*y*\n",
-          "```\nunclosed\n\n", "* * *\n", "- - -\nx\n", "+\n", "1.\n", "-\n  x\n"]
+          "```\nunclosed\n\n", "* * *\n", "- - -\nx\n", "+\n", "1.\n", "-\n  x\n",
+          # tables (quote law under the table configuration), incl. rows with empty cells at the pipes
+          "|a|b|\n|-|-|\n|c|d|\n", "||a|\n|-|-|\n|1|2|\n", "|a|b|\n|-|-|\n||2|\n|3||\n", "| h |\n|:-:|\n|| x ||\n", "a|b\n-|-\n|\nc\n"]
 
 
 def wrap_random(rng, d, steps):
@@ -240,7 +242,7 @@ def run(ctx) -> int:
     cov = proof_cov("C06", proofs, ["quote_law / item_law at document level are decided on the implementation in this run; proved: the row-level agreement of quote stripping and line scanning (partial)"])
     cov.update({
         "evaluations": n_run + count["quote"] + count["item"], "distinct_nontrivial": len(set(lines)) + count["quote"] + count["item"],
-        "rule": "D: generated documents (seed corpus mutations, container x leaf grammar, leaves with interior blank lines: fences, html blocks of all kinds, indented code, multi-line definitions, lazy lines, loose/tight lists, empty items, hr look-alikes), tabs/CR/NUL removed, newline-terminated; 0-3 random wraps applied before the law (containers within containers), then quote law under commonmark / html off / inline_definitions / js-default(table), item law under the commonmark configurations with markers - * + 1. 7) 12. 0. 123456789) x 1-4 spaces; blank lines are prefixed / indented too; first lines that become a thematic break are skipped",
+        "rule": "D: generated documents (seed corpus mutations, container x leaf grammar, leaves with interior blank lines: fences, html blocks of all kinds, indented code, multi-line definitions, lazy lines, loose/tight lists, empty items, hr look-alikes, tables with empty edge cells), tabs/CR/NUL removed, newline-terminated; 0-3 random wraps applied before the law (containers within containers), then quote law under commonmark / html off / inline_definitions / js-default(table), item law under the commonmark configurations with markers - * + 1. 7) 12. 0. 123456789) x 1-4 spaces; blank lines are prefixed / indented too; first lines that become a thematic break are skipped",
         "samples": [{"D": "```\na\n\nb\n```\n", "quote": quote("```\na\n\nb\n```\n"), "item": item("```\na\n\nb\n```\n", "1.", 2)}],
         "traces_validated_against_impl": n_run, "implementation_probes": count,
         "in_kernel_cases": kn, "in_kernel_mismatches": len(kbad), "disagreements": len(disagreements),
